@@ -214,9 +214,9 @@ func entryName(field string) string {
 type symKind int
 
 const (
-	symMsg symKind = 1
+	symMsg  symKind = 1
 	symEnum symKind = 2
-	symPkg symKind = 3
+	symPkg  symKind = 3
 )
 
 func (f *pFile) ownSyms(t map[string]symKind) {
